@@ -606,7 +606,7 @@ func main() {
 		r := execute(s, nm, dir, true)
 		c.Sample(map[string]any{"history": histString(s), "violations": len(r.Fails), "final_matrix": compactRaw(r.Raw)})
 	}
-	need := []string{"id:own", "id:base-through-temp", "id:absent", "bool:present", "bool:absent", "open-choice->base", "auto:resolved"}
+	need := []string{"variant:resolved", "variant:unresolved", "id:own", "id:base-through-temp", "id:absent", "bool:present", "bool:absent", "open-choice->base", "auto:resolved"}
 	for _, n := range need {
 		if cats[n] == 0 {
 			c.HarnessError("vacuous: outcome class %q never observed", n)
